@@ -208,6 +208,117 @@ Proof.
       * rewrite has_key_cons, (F f' Hin). apply orb_true_r.
 Qed.
 
+(* ---------------- lists: prefixItems over concatenations, splitting at an Unpack ---------------- *)
+Lemma forallb2_nil_r {A B} (f: A -> B -> bool) l : forallb2 f l [] = true.
+Proof. destruct l; reflexivity. Qed.
+
+Lemma forallb2_app {A B} (f: A -> B -> bool) : forall l1 l2 x1 x2, List.length l1 = List.length x1 ->
+  forallb2 f (l1 ++ l2)%list (x1 ++ x2)%list = forallb2 f l1 x1 && forallb2 f l2 x2.
+Proof.
+  induction l1 as [|a r IH]; intros l2 x1 x2 H; destruct x1 as [|x r']; try discriminate; [reflexivity|].
+  cbn. cbn in H. rewrite IH by lia. rewrite andb_assoc. reflexivity.
+Qed.
+
+Lemma forallb2_short {A B} (f: A -> B -> bool) p x y : List.length p = List.length x ->
+  forallb2 f p (x ++ y)%list = forallb2 f p x.
+Proof.
+  intros H. rewrite <- (app_nil_r p) at 1. rewrite forallb2_app by assumption. cbn. apply andb_true_r.
+Qed.
+
+Lemma skipn_add {A} : forall b (l: list A) a, skipn a (skipn b l) = skipn (b + a) l.
+Proof.
+  induction b as [|b IH]; intros l a; [reflexivity|].
+  destruct l as [|x r]; [cbn; destruct a; reflexivity|]. cbn. apply IH.
+Qed.
+
+Lemma split3 {A} (l: list A) u nm : u + nm <= List.length l ->
+  l = (firstn u l ++ firstn nm (skipn u l) ++ skipn (u + nm) l)%list.
+Proof.
+  intros H. rewrite <- (firstn_skipn u l) at 1. f_equal.
+  rewrite <- (firstn_skipn nm (skipn u l)) at 1. f_equal. apply skipn_add.
+Qed.
+
+Lemma find_unpack_split : forall args u, find_unpack args = Some u ->
+  exists it, nth_error args u = Some (true, it) /\ no_unpack (firstn u args) = true /\
+             args = (firstn u args ++ (true, it) :: skipn (Sn u) args)%list.
+Proof.
+  induction args as [|[b t] r IH]; intros u H; [discriminate|]. cbn in H. destruct b.
+  - inversion H; subst. exists t. repeat split; reflexivity.
+  - destruct (find_unpack r) as [i|] eqn:Er; [|discriminate]. inversion H; subst.
+    destruct (IH i eq_refl) as (it & Hn & Hnu & Heq). exists it. cbn [nth_error firstn skipn no_unpack forallb fst negb andb].
+    repeat split; [assumption| exact Hnu |]. cbn [app]. f_equal. exact Heq.
+Qed.
+
+Lemma omap_app {A B} (f: A -> option B) : forall l1 l2 r, omap f (l1 ++ l2)%list = Some r ->
+  exists r1 r2, omap f l1 = Some r1 /\ omap f l2 = Some r2 /\ r = (r1 ++ r2)%list.
+Proof.
+  induction l1 as [|a l1 IH]; intros l2 r H.
+  - exists [], r. repeat split; assumption.
+  - cbn in H. destruct (f a) as [b|] eqn:Ea; [|discriminate]. destruct (omap f (l1 ++ l2)) as [r'|] eqn:Er; [|discriminate].
+    inversion H; subst. destruct (IH l2 r' Er) as (r1 & r2 & H1 & H2 & ->).
+    exists (b :: r1), r2. cbn. rewrite Ea, H1. repeat split; auto.
+Qed.
+
+(* ---------------- K6 closed form for one Unpack among plain arguments ---------------- *)
+Lemma last_unpack_plain_app {A} (sb: list A) : forall i r acc,
+  last_unpack i (map (@Plain A) sb ++ r)%list acc = last_unpack (i + zlen sb)%Z r acc.
+Proof.
+  induction sb as [|s sb IH]; intros i r acc.
+  - cbn. unfold zlen. cbn. rewrite Z.add_0_r. reflexivity.
+  - cbn [map app last_unpack]. rewrite IH. f_equal. unfold zlen. cbn [List.length]. lia.
+Qed.
+
+Lemma unpacks_plain {A} (sa: list A) : unpacks (map (@Plain A) sa) = [].
+Proof. induction sa; cbn; auto. Qed.
+Lemma lead_plain_app {A} (sb: list A) u r : lead (map (@Plain A) sb ++ Unpack u :: r)%list = sb.
+Proof. induction sb as [|x sb IH]; cbn; [reflexivity|f_equal; exact IH]. Qed.
+Lemma nplain_plain {A} (sa: list A) : nplain (map (@Plain A) sa) = zlen sa.
+Proof. induction sa as [|x r IH]; [reflexivity|]. cbn [map nplain]. rewrite IH. unfold zlen. cbn [List.length]. lia. Qed.
+Lemma nplain_app {A} (l1 l2: list (targ A)) : nplain (l1 ++ l2)%list = (nplain l1 + nplain l2)%Z.
+Proof. induction l1 as [|[s|u] r IH]; cbn [app nplain]; lia. Qed.
+
+Lemma spec_one_unpack {A} (sb sa: list A) (u0: uschema A) :
+  tuple_spec (map (@Plain A) sb ++ Unpack u0 :: map (@Plain A) sa)%list =
+  mkT (l_or_none (sb ++ uprefix u0)%list)
+      (if (zlen sa =? 0)%Z then u_items u0 else None)
+      (z_or_none (zlen sb + zlen sa + umin u0))
+      (z_or_none (match u_max u0 with Some mx => zlen sb + zlen sa + mx | None => 0 end))%Z.
+Proof.
+  unfold tuple_spec. rewrite last_unpack_plain_app. cbn [last_unpack].
+  rewrite (last_unpack_none _ _ _ (unpacks_plain sa)). rewrite lead_plain_app.
+  rewrite nplain_app, nplain_plain. cbn [nplain]. rewrite nplain_plain.
+  assert (Hz: ((1 + zlen sb =? zlen (map (@Plain A) sb ++ Unpack u0 :: map (@Plain A) sa)%list) = (zlen sa =? 0))%Z).
+  { unfold zlen. rewrite app_length. cbn [List.length]. rewrite !map_length.
+    destruct (Z.eqb_spec (Z.of_nat (List.length sa)) 0); [apply Z.eqb_eq; lia | apply Z.eqb_neq; lia]. }
+  rewrite Hz. reflexivity.
+Qed.
+
+Lemma forallb2_le {A B} (f: A -> B -> bool) : forall p x y, List.length p <= List.length x ->
+  forallb2 f p (x ++ y)%list = forallb2 f p x.
+Proof.
+  induction p as [|a p IH]; intros x y H; [reflexivity|].
+  destruct x as [|b x]; [cbn in H; lia|]. cbn. rewrite IH by (cbn in H; lia). reflexivity.
+Qed.
+
+Lemma tuple_kws_all (f: kw -> bool) (r: tschema schema) :
+  f (KType TyArray) = true ->
+  (forall l, t_prefix r = Some l -> f (KPrefix l) = true) ->
+  (forall s, t_items r = Some s -> f (KItems s) = true) ->
+  (forall z, t_min r = Some z -> f (KMin z) = true) ->
+  (forall z, t_max r = Some z -> f (KMax z) = true) ->
+  forallb f (tuple_kws r) = true.
+Proof.
+  destruct r as [[p|] [i|] [mn|] [mx|]]; unfold tuple_kws; cbn; intros H0 H1 H2 H3 H4;
+    rewrite ?H0, ?(H1 _ eq_refl), ?(H2 _ eq_refl), ?(H3 _ eq_refl), ?(H4 _ eq_refl); reflexivity.
+Qed.
+
+Lemma tuple_kws_prefix_len (r: tschema schema) :
+  get_prefix_len (tuple_kws r) = match t_prefix r with Some l => List.length l | None => 0 end.
+Proof. destruct r as [[p|] [i|] [mn|] [mx|]]; reflexivity. Qed.
+
+Lemma l_or_none_some {A} (l p: list A) : l_or_none l = Some p -> p = l /\ l <> [].
+Proof. destruct l; cbn; intros H; inversion H; split; [reflexivity|discriminate]. Qed.
+
 Section Sound.
   Variable pm : string -> string -> bool.
   (* the regular-expression oracle accepts the rendering of every whole-minute offset
@@ -243,6 +354,143 @@ Section Sound.
       cbn in Ha. apply andb_true_iff in Ha. destruct Ha as [Ha1 Ha2].
       cbn in Hok. apply andb_true_iff in Hok. destruct Hok as [Hok1 Hok2].
       cbn [forallb2]. rewrite (IH _ _ _ _ _ Ha1 m m' s0 Hok1 Es k Hk). cbn. eapply IHr; eauto.
+  Qed.
+
+  (* schema of a plain fixed tuple (no Unpack) *)
+  Lemma plain_tuple_schema cur m (ia: list (bool * ty)) s : no_unpack ia = true ->
+    schema_f E dl ar cur (Sn m) (TTuple ia) = Some s ->
+    exists ss, omap (fun a: bool * ty => schema_f E dl ar cur m (snd a)) ia = Some ss /\
+      s = S (match ss with
+             | [] => [KType TyArray; KMax 0%Z]
+             | _ => [KType TyArray; KPrefix ss; KMin (zlen ss); KMax (zlen ss)] end).
+  Proof.
+    intros Hnu Hs. cbn [schema_f] in Hs. destruct ia as [|a0 r].
+    - inv Hs. exists []. split; reflexivity.
+    - cbn beta iota in Hs.
+      match type of Hs with context [omap ?G (a0 :: r)] => destruct (omap G (a0 :: r)) as [targs|] eqn:Eo; [|discriminate] end.
+      inv Hs. destruct (tuple_plain _ _ Hnu _ Eo) as (ss & -> & Ess). exists ss. split; [assumption|].
+      rewrite on_tuple_k_spec, spec_plain. pose proof (omap_length _ _ _ Ess) as Hlen.
+      destruct ss as [|s0 ss']; [cbn in Hlen; discriminate|].
+      assert (Hz: z_or_none (zlen (s0 :: ss')) = Some (zlen (s0 :: ss'))).
+      { unfold z_or_none. destruct (Z.eqb_spec (zlen (s0 :: ss')) 0) as [Hz|Hz]; [|reflexivity].
+        unfold zlen in Hz. cbn [List.length] in Hz. lia. }
+      unfold tuple_kws. cbn [t_prefix t_items t_min t_max l_or_none]. rewrite Hz. reflexivity.
+  Qed.
+
+  (* what the kernel reads of the schema of the unpacked segment, with the facts the outer tuple needs:
+     the segment's elements validate against its prefix / items, and its length is within its bounds *)
+  Lemma unpack_inner_facts n (IHs: forall n', n' <= n -> sound_at n') cur base m m' k (Hk: 2 * n + 1 <= k) it lm jm s_in :
+    unpack_inner_ok it = true ->
+    enc_ok n E cur base it (VList lm) (JArr jm) = true ->
+    ty_ok m' E cur base it = true ->
+    schema_f E dl ar cur m it = Some s_in ->
+    let u0 := uschema_of s_in in
+    List.length (uprefix u0) <= List.length jm /\
+    forallb2 (fun s' x => jvalid pm defs k s' x) (uprefix u0) jm = true /\
+    (forall si, u_items u0 = Some si -> uprefix u0 = [] /\ forallb (jvalid pm defs k si) jm = true) /\
+    (umin u0 <= Z.of_nat (List.length jm))%Z /\
+    (forall mx, u_max u0 = Some mx -> (Z.of_nat (List.length jm) <= mx)%Z) /\
+    (0 <= umin u0)%Z.
+  Proof.
+    intros Hin He Hok Hs u0. destruct n as [|n']; [discriminate|]. destruct m as [|m0]; [discriminate|].
+    destruct m' as [|m1]; [discriminate|].
+    destruct it; try discriminate.
+    - (* Tuple[T, ...] *)
+      destruct keep; [|discriminate]. cbn [enc_ok] in He. cbn [schema_f] in Hs. cbn [ty_ok] in Hok.
+      destruct (schema_f E dl ar cur m0 it) as [st|] eqn:Est; [|discriminate]. inv Hs.
+      apply andb_true_iff in Hok. destruct Hok as [_ Hok].
+      assert (Hall: forallb (jvalid pm defs k st) jm = true).
+      { eapply all2_forallb; [|exact He]. intros x y _ Hxy.
+        eapply (IHs n' ltac:(lia) _ _ _ _ _ Hxy m0 m1 st); eauto. lia. }
+      subst u0. unfold opt_kw. destruct (is_empty_schema st) eqn:Eemp; cbn;
+        refine (conj _ (conj _ (conj _ (conj _ (conj _ _))))); try lia; try reflexivity; try discriminate.
+      intros si Hsi. inv Hsi. split; [reflexivity|assumption].
+    - (* fixed tuple without Unpack *)
+      cbn [unpack_inner_ok] in Hin. destruct (plain_tuple_schema cur m0 args s_in Hin Hs) as (ss & Ess & ->).
+      cbn [enc_ok] in He. rewrite (no_unpack_find _ Hin) in He.
+      apply andb_true_iff in He. destruct He as [He Hl2]. apply andb_true_iff in He. destruct He as [He Hl1].
+      apply Nat.eqb_eq in Hl1. apply Nat.eqb_eq in Hl2.
+      cbn [ty_ok] in Hok. apply andb_true_iff in Hok. destruct Hok as [Hoks _].
+      pose proof (prefix_ok (@snd bool ty) n' (IHs n' ltac:(lia)) cur base m0 m1 k ltac:(lia) _ _ _ _ He Ess Hoks) as Hp.
+      pose proof (omap_length _ _ _ Ess) as Hlen.
+      assert (Hjl: List.length jm = List.length ss) by lia.
+      subst u0. destruct ss as [|s0 ss'].
+      + cbn. destruct jm; [|discriminate].
+        refine (conj _ (conj _ (conj _ (conj _ (conj _ _))))); try (cbn; lia); try reflexivity.
+        * intros si Hsi. discriminate.
+        * intros mx Hmx. inv Hmx. cbn. lia.
+      + assert (Hnz: (zlen (s0 :: ss') =? 0)%Z = false).
+        { apply Z.eqb_neq. unfold zlen. cbn [List.length]. lia. }
+        unfold uschema_of, uprefix, umin. cbn [kws_of get_kw_prefix get_kw_items get_kw_min get_kw_max u_prefix u_items u_min u_max ol_or_nil oz_or].
+        rewrite Hnz. unfold zlen in *.
+        refine (conj _ (conj _ (conj _ (conj _ (conj _ _))))); try lia; try assumption.
+        * intros si Hsi. discriminate.
+        * intros mx Hmx. injection Hmx as Hmx. rewrite <- Hmx, Hjl. apply Z.le_refl.
+  Qed.
+
+  (* a fixed tuple with one Unpack segment: every element validates against prefixItems / items and the
+     length is within [minItems, maxItems] *)
+  Lemma tuple_unpack_sound n (IHs: forall n', n' <= n -> sound_at n') cur base m m' k (Hk: 2 * n + 1 <= k)
+        (before after: list (bool * ty)) (it: ty) (lb lm la: list value) (jb jm ja: list json) s :
+    no_unpack before = true -> no_unpack after = true -> unpack_inner_ok it = true ->
+    all2 (fun (a: bool * ty) (p: value * json) => enc_ok n E cur base (snd a) (fst p) (snd p)) before (combine lb jb) = true ->
+    List.length lb = List.length jb -> List.length lb = List.length before ->
+    enc_ok n E cur base it (VList lm) (JArr jm) = true ->
+    List.length la = List.length ja -> List.length la = List.length after ->
+    forallb (fun a: bool * ty => ty_ok m' E cur base (snd a)) (before ++ (true, it) :: after)%list = true ->
+    schema_f E dl ar cur (Sn m) (TTuple (before ++ (true, it) :: after)%list) = Some s ->
+    jvalid pm defs (Sn k) s (JArr (jb ++ jm ++ ja)%list) = true.
+  Proof.
+    intros Hnb Hna Hin Hb Hlb1 Hlb2 Hi Hla1 Hla2 Hok Hs.
+    cbn [schema_f] in Hs.
+    destruct (before ++ (true, it) :: after)%list as [|a0 r0] eqn:Eargs; [destruct before; discriminate|].
+    rewrite <- Eargs in *. clear a0 r0 Eargs.
+    match type of Hs with context [omap ?G ?L] => destruct (omap G L) as [targs|] eqn:Eo; [|discriminate] end.
+    inv Hs.
+    destruct (omap_app _ _ _ _ Eo) as (tb & r2 & Eb & E2 & ->).
+    cbn [omap fst snd] in E2.
+    destruct (schema_f E dl ar cur m it) as [s_in|] eqn:Ein; [|discriminate].
+    match type of E2 with context [omap ?G after] => destruct (omap G after) as [ta|] eqn:Ea; [|discriminate] end.
+    inv E2.
+    destruct (tuple_plain _ _ Hnb _ Eb) as (sb & -> & Esb).
+    destruct (tuple_plain _ _ Hna _ Ea) as (sa & -> & Esa).
+    rewrite forallb_app in Hok. apply andb_true_iff in Hok. destruct Hok as [Hokb Hok].
+    cbn [forallb snd] in Hok. apply andb_true_iff in Hok. destruct Hok as [Hoki Hoka].
+    pose proof (prefix_ok (@snd bool ty) n (IHs n (le_n n)) cur base m m' k Hk _ _ _ _ Hb Esb Hokb) as Hpb.
+    destruct (unpack_inner_facts n IHs cur base m m' k Hk it lm jm s_in Hin Hi Hoki Ein) as (F1 & F2 & F3 & F4 & F5 & F6).
+    set (u0 := uschema_of s_in) in *.
+    pose proof (omap_length _ _ _ Esb) as Lsb. pose proof (omap_length _ _ _ Esa) as Lsa.
+    assert (Lb: List.length sb = List.length jb) by lia.
+    assert (La: List.length sa = List.length ja) by lia.
+    rewrite on_tuple_k_spec, spec_one_unpack. rewrite jvalid_S. cbn [kws_of].
+    set (R := mkT (l_or_none (sb ++ uprefix u0)%list) (if (zlen sa =? 0)%Z then u_items u0 else None)
+                  (z_or_none (zlen sb + zlen sa + umin u0)%Z)
+                  (z_or_none (match u_max u0 with Some mx => (zlen sb + zlen sa + mx)%Z | None => 0%Z end))).
+    assert (Hlen: Z.of_nat (List.length (jb ++ jm ++ ja)%list) = (zlen sb + zlen sa + Z.of_nat (List.length jm))%Z).
+    { rewrite !app_length. unfold zlen. lia. }
+    apply tuple_kws_all.
+    - reflexivity.
+    - (* prefixItems *)
+      intros p Hp. cbn [R t_prefix] in Hp. apply l_or_none_some in Hp. destruct Hp as [-> _].
+      cbn [kw_ok]. rewrite forallb2_app by assumption. rewrite Hpb. cbn [andb].
+      rewrite forallb2_le by assumption. exact F2.
+    - (* items: only when the Unpack is the last argument *)
+      intros si Hsi. cbn [R t_items] in Hsi.
+      destruct (zlen sa =? 0)%Z eqn:Ez; [|discriminate].
+      destruct (F3 si Hsi) as [Hup Hall].
+      assert (sa = []) by (apply Z.eqb_eq in Ez; unfold zlen in Ez; destruct sa; [reflexivity|cbn in Ez; lia]).
+      subst sa. destruct ja; [|discriminate].
+      cbn [kw_ok]. rewrite tuple_kws_prefix_len. cbn [R t_prefix]. rewrite Hup, !app_nil_r.
+      assert (Hsk: skipn (match l_or_none sb with Some l => List.length l | None => 0 end) (jb ++ jm)%list = jm).
+      { replace (match l_or_none sb with Some l => List.length l | None => 0 end) with (List.length jb)
+          by (destruct sb; cbn in *; lia).
+        rewrite skipn_app, Nat.sub_diag, skipn_all. reflexivity. }
+      rewrite Hsk. exact Hall.
+    - (* minItems *)
+      intros z Hz. cbn [R t_min] in Hz. apply z_or_none_some in Hz. cbn [kw_ok]. rewrite Hlen. apply Z.leb_le. lia.
+    - (* maxItems *)
+      intros z Hz. cbn [R t_max] in Hz. destruct (u_max u0) as [mx|] eqn:Emx; [|cbn in Hz; discriminate].
+      apply z_or_none_some in Hz. cbn [kw_ok]. rewrite Hlen. apply Z.leb_le. specialize (F5 mx eq_refl). lia.
   Qed.
 
   Lemma assoc_omap_find (F: ty -> option schema) key : forall fields ps f,
@@ -299,9 +547,10 @@ Section Sound.
       destruct (PA f Hf) as (s' & _ & Ha). eapply assoc_has_key; eassumption.
   Qed.
 
-  Lemma sound_step n : sound_at n -> sound_at (Sn n).
+  Lemma sound_step n : (forall n', n' <= n -> sound_at n') -> sound_at (Sn n).
   Proof.
-    intros IH cur base t v j He m m' s Hok Hs k Hk.
+    intros IHs cur base t v j He m m' s Hok Hs k Hk.
+    pose proof (IHs n (le_n n)) as IH.
     destruct m as [|m]; [discriminate|]. destruct m' as [|m']; [discriminate|].
     destruct k as [|k]; [lia|].
     assert (Hk1: 2 * n + 1 <= k) by lia.
@@ -354,9 +603,32 @@ Section Sound.
       { eapply all2_forallb; [|exact He]. intros x y _ Hxy. eapply IH; eauto. }
       unfold opt_kw. destruct (is_empty_schema s0); cbn [app kws_of forallb kw_ok has_type get_prefix_len skipn negb orb];
         rewrite ?Hall, ?Hnd; reflexivity.
-    - (* TTuple: fixed tuples without Unpack (the arithmetic with Unpack is covered by the K6 theorems) *)
-      apply andb_true_iff in Hok. destruct Hok as [Hnu Hoks].
+    - (* TTuple *)
+      apply andb_true_iff in Hok. destruct Hok as [Hoks Hshape].
       destruct v; try discriminate. destruct j; try discriminate.
+      destruct (no_unpack args) eqn:Hnu; [clear Hshape|].
+      2:{ (* one Unpack segment *)
+        cbn [orb] in Hshape. destruct (find_unpack args) as [u|] eqn:Efu; [|discriminate].
+        apply andb_true_iff in Hshape. destruct Hshape as [Hna Hin].
+        destruct (find_unpack_split _ _ Efu) as (it & Hnth & Hnb & Hargs).
+        rewrite Hnth in Hin, He.
+        apply andb_true_iff in He. destruct He as [He Hrest].
+        apply andb_true_iff in He. destruct He as [He Hle]. apply andb_true_iff in He. destruct He as [_ Hll].
+        apply andb_true_iff in Hrest. destruct Hrest as [Hrest Hafter]. apply andb_true_iff in Hrest. destruct Hrest as [Hbefore Hinner].
+        apply Nat.eqb_eq in Hll. apply Nat.leb_le in Hle.
+        set (na := List.length (skipn (Sn u) args)) in *. set (nm := List.length l - u - na) in *.
+        assert (Hu: u < List.length args) by (apply nth_error_Some; congruence).
+        change (schema_f E dl ar cur (Sn m) (TTuple args) = Some s) in Hs.
+        rewrite Hargs in Hs. rewrite Hargs in Hoks.
+        rewrite <- jvalid_S.
+        replace (JArr l0) with (JArr (firstn u l0 ++ firstn nm (skipn u l0) ++ skipn (u + nm) l0)%list)
+          by (f_equal; symmetry; apply split3; lia).
+        eapply (tuple_unpack_sound n IHs cur base m m' k Hk1 (firstn u args) (skipn (Sn u) args) it
+                  (firstn u l) (firstn nm (skipn u l)) (skipn (u + nm) l)); eauto.
+        - rewrite !firstn_length_le by lia. reflexivity.
+        - rewrite !firstn_length_le by lia. reflexivity.
+        - rewrite !skipn_length. lia.
+        - rewrite skipn_length. fold na. lia. }
       rewrite (no_unpack_find _ Hnu) in He.
       apply andb_true_iff in He. destruct He as [He Hl2]. apply andb_true_iff in He. destruct He as [He Hl1].
       apply Nat.eqb_eq in Hl1. apply Nat.eqb_eq in Hl2.
@@ -501,10 +773,14 @@ Section Sound.
           rewrite Hll, Z.leb_refl. reflexivity.
   Qed.
 
-  Theorem sound_all : forall n, sound_at n.
+  Lemma sound_upto : forall n n', n' <= n -> sound_at n'.
   Proof.
-    induction n as [|n IHn]; [|apply sound_step; assumption].
-    intros cur base t v j He. discriminate.
+    induction n as [|n IHn]; intros n' Hle.
+    - assert (n' = 0) by lia. subst. intros cur base t v j He. discriminate.
+    - destruct (Nat.eq_dec n' (Sn n)) as [->|Hne]; [apply sound_step; exact IHn | apply IHn; lia].
   Qed.
+
+  Theorem sound_all : forall n, sound_at n.
+  Proof. intros n. exact (sound_upto n n (le_n n)). Qed.
 End Sound.
 
